@@ -19,6 +19,8 @@ import AmrK.HeaderRender
 import AmrK.TasteWFModel
 import AmrK.Names
 import AmrK.MaxMins
+import AmrK.TasteData
+import AmrK.BoxSel
 import AmrK.TasteCoords
 import AmrK.CellHRewrite
 import AmrK.HeaderRewrite
@@ -454,6 +456,66 @@ def opMaxMins (j : Json) : Except String Json := do
     let enc := fun (t : List (Bytes × List Bytes)) => toJson (t.map fun p => (str p.1, p.2.map str))
     return Json.mkObj [("status", "ok"), ("mins", enc (MaxMins.byField names mins)), ("maxs", enc (MaxMins.byField names maxs))]
 
+/-- box and level selection of the indexing interface -/
+def opBoxSel (j : Json) : Except String Json := do
+  let size ← (← j.getObjVal? "size").getNat?
+  let t ← (← j.getObjVal? "t").getStr?
+  let v ← j.getObjVal? "v"
+  let optInt (x : Json) : Except String (Option Int) := match x with
+    | .null => pure none
+    | _ => do return some (← x.getInt?)
+  let sel : BoxSel.Sel ← match t with
+    | "int" => do pure (BoxSel.Sel.idx (← v.getInt?))
+    | "slice" => do
+      let a ← v.getArr?
+      pure (BoxSel.Sel.slice (← optInt a[0]!) (← optInt a[1]!) (← optInt a[2]!))
+    | "list" => do pure (BoxSel.Sel.list (← (← v.getArr?).toList.mapM (·.getInt?)))
+    | "mask" => do pure (BoxSel.Sel.mask (← (← v.getArr?).toList.mapM (·.getBool?)))
+    | _ => throw "selector form"
+  let lvl : Json := match j.getObjVal? "nlev", j.getObjVal? "level" with
+    | .ok n, .ok k => match n.getNat?, k.getInt? with
+      | .ok n, .ok k => optJ (BoxSel.level n k)
+      | _, _ => Json.null
+    | _, _ => Json.null
+  match BoxSel.positions size sel with
+  | none => return Json.mkObj [("status", "refused"), ("level", lvl)]
+  | some ps => return Json.mkObj [("status", "ok"), ("positions", toJson ps), ("level", lvl)]
+
+/-- taste's binary-data validation of one level; extrema of every FAB of a file from its bytes -/
+def vPairs (j : Json) : Except String (List (List Extrema.V)) := do
+  (← j.getArr?).toList.mapM fun r => do (← r.getArr?).toList.mapM vOfJson
+def verdictJ : TasteData.Verdict → Json
+  | .good => "good"
+  | .bad => "bad"
+  | .crash => "crash"
+def opTasteData (files : Std.HashMap String Bytes) (j : Json) : Except String Json := do
+  let ck ← (← j.getObjVal? "cellh").getStr?
+  let nf ← (← j.getObjVal? "nfields").getNat?
+  let fields ← natList (← j.getObjVal? "fields")
+  let mins ← vPairs (← j.getObjVal? "mins")
+  let maxs ← vPairs (← j.getObjVal? "maxs")
+  let fs ← (← j.getObjVal? "files").getObj?
+  let fl := fs.toList.filterMap fun (n, k) =>
+    match k with
+    | .str key => some (n, files.getD key [])
+    | _ => none
+  match Taste.parseCellH (files.getD ck []) nf with
+  | .bad why => return Json.mkObj [("status", "refused"), ("why", toJson why)]
+  | .ok entries =>
+    let rows := (List.zip mins maxs).map fun (a, b) => List.zip a b
+    return Json.mkObj [("status", "ok"), ("verdict", verdictJ (TasteData.levelOK fields entries rows fl))]
+def opFabRows (files : Std.HashMap String Bytes) (j : Json) : Except String Json := do
+  let k ← (← j.getObjVal? "name").getStr?
+  let raw := files.getD k []
+  let fabs := TasteData.scanAll raw (raw.length + 1) 0
+  let out := fabs.map fun (h, p) =>
+    let rows := TasteData.fabRows p (Reader.ncells h).toNat h.nf.toNat
+    Json.mkObj [("lo", toJson h.lo), ("hi", toJson h.hi), ("nf", toJson h.nf),
+      ("rows", match rows with
+        | none => Json.null
+        | some rs => toJson (rs.map fun (a, b) => [vToJson a, vToJson b]))]
+  return Json.mkObj [("status", "ok"), ("fabs", toJson out)]
+
 /-- colander's level header, derived from the input's -/
 def opRewriteCellH (j : Json) : Except String Json := do
   let text := unhex (← (← j.getObjVal? "hex").getStr?)
@@ -632,6 +694,9 @@ partial def loop (h : IO.FS.Stream) (out : IO.FS.Stream) (files : Std.HashMap St
         | "meets" => opMeets j
         | "rewrite_cellh" => opRewriteCellH j
         | "maxmins" => opMaxMins j
+        | "taste_data" => opTasteData files j
+        | "boxsel" => opBoxSel j
+        | "fab_rows" => opFabRows files j
         | "combine_cellh" => opCombineCellH j
         | "rewrite_header" => opRewriteHeader j
         | "slice_header" => opSliceHeader j
